@@ -252,11 +252,16 @@ func (s *mxScript) round(cmds []mxCmd, burst bool) bool {
 
 	// observe
 	rec := mxRoundRec{Cmds: cmds, Burst: burst, Purges: purges, Table: [][2]int{}, Holders: [][2]int{}, Waiters: [][2]int{}, Stale: []int{}}
+	var bad []string
 	for k, n := range s.m.Table() {
+		if n < 0 {
+			// a counter below zero: an Unlock of a key that is not held had an effect
+			bad = append(bad, fmt.Sprintf("lost wake-up: the lock counter of key %d is %d at quiescence (an Unlock of an unheld key was counted; the next Lock on it will not be granted)", k.(int), n))
+			n = 0
+		}
 		rec.Table = append(rec.Table, [2]int{k.(int), n})
 	}
 	sort.Slice(rec.Table, func(i, j int) bool { return rec.Table[i][0] < rec.Table[j][0] })
-	var bad []string
 	for g, w := range s.ws {
 		st := w.status.Load()
 		s.status[g], s.wkey[g] = st, int(w.key.Load())
